@@ -929,6 +929,7 @@ htp_status_t htp_connp_REQ_FINALIZE(htp_connp_t *connp) {
         htp_connp_req_consolidate_data(connp, &data, &len);
     }
     // Interpret remaining bytes as body data
+    HTP_VERIF_TRACE(5, connp, connp->in_tx, (long) len);
     connp->in_tx->request_message_len += len;
     htp_status_t rc = htp_tx_req_process_body_data_ex(connp->in_tx, data, len);
     htp_connp_req_clear_buffer(connp);
